@@ -238,6 +238,18 @@ func genMergeCase(r *rand.Rand, idx int, tier string, tmp string) *mergeCase {
 				return m
 			}
 		}
+	case forced == 6: // wide schemas: field ids above 127 are remapped by the merge
+		m.Shape = "wide"
+		wide := gen.WideSchema(r, 140+r.Intn(120))
+		k := 2 + r.Intn(2)
+		for i := 0; i < k; i++ {
+			n := 20 + r.Intn(80)
+			sub := &gen.Schema{IDP: wide.IDP, Fields: wide.Fields[r.Intn(40):]}
+			s, err := gen.BuildSeg(gen.WideBatch(r, sub, n, fmt.Sprintf("w%d", i)), gen.Mode(r, n))
+			if !add(s, err, gen.Drops(r, n, -1)) {
+				return m
+			}
+		}
 	case forced == 5: // everything survives, identical field lists: byte-copy stored path
 		m.Shape = "copy-path"
 		k := 2 + r.Intn(2)
